@@ -10,7 +10,7 @@ MB_SHORTS = ["é", "ü", "日", "ß", "Ω", "😀"]
 
 DEFAULT_PROFILE = dict(
     n_opts=(1, 6), p_short=0.6, p_long=0.75, p_mb_short=0.08, p_desc=0.3, p_default=0.2, p_required=0.12, p_optional=0.1,
-    p_choice=0.1, p_env=0.1, p_hidden=0.08, p_valname=0.1, p_mask=0.05, p_ininame=0.05, p_inicross=0.0, p_addoption=0.0, p_mid_attach=0.0, p_noini=0.03, p_base=0.1, p_unquote_false=0.03,
+    p_choice=0.1, p_env=0.1, p_hidden=0.08, p_valname=0.1, p_mask=0.05, p_ininame=0.05, p_inicross=0.0, p_addoption=0.0, p_mid_attach=0.0, p_mid_hide=0.0, p_noini=0.03, p_base=0.1, p_unquote_false=0.03,
     p_group=0.25, p_ptr_group=0.4, p_nil_ptr=0.5, p_namespace=0.5, p_plain_nested=0.08, p_unexported=0.05, p_untagged=0.1, p_noflag=0.03,
     p_commands=0.45, max_depth=2, n_cmds=(1, 3), p_alias=0.3, p_cmd_hidden=0.1, p_subopt=0.25, p_exec=0.6, p_exec_err=0.2,
     p_tagcmd=0.5, p_positional=0.3, n_pos=(1, 3), p_pos_slice=0.4, p_pos_required=0.4,
@@ -96,7 +96,7 @@ class Gen:
         r = self.rng
         if not valid:
             if kind == "string": return strgen.rstr(r, 5)
-            if kind == "custom": return b"!" + strgen.rstr(r, 3, p_bad=0)
+            if kind in ("custom", "comp"): return b"!" + strgen.rstr(r, 3, p_bad=0)
             if kind == "bool": return r.choice([b"maybe", b"yes", b"2", b"tru"])
             if kind in scen.IKINDS:
                 lo, hi = int_range(kind)
@@ -625,6 +625,11 @@ class Gen:
                 att = tmp[0]
             sc["ops"].append({"op": "attach", "attach": att})
             sc["ops"].append({"op": "parse", "args": self.gen_argv(sc)})
+        if self.p.get("p_mid_hide", 0.0) and root["subs"] and r.random() < self.p["p_mid_hide"]:
+            # the program hides or un-hides a command between two parses (meta keeps the initial marks; oracles follow the ops)
+            idx = r.randrange(len(root["subs"]))
+            sc["ops"].append({"op": "hide", "path": [idx], "hidden": not root["subs"][idx].get("hidden", False)})
+            sc["ops"].append({"op": "parse", "args": self.gen_argv(sc)})
         return sc
 
     def gen_addoption(self, node, path, attach):
@@ -704,6 +709,8 @@ class Gen:
         valid = not self.chance("p_bad_value")
         if o["choices"] and valid:
             v = r.choice(o["choices"])
+            if r.random() < 0.12 and v.swapcase() != v:
+                v = v.swapcase()        # differs from a choice only in letter case: not a choice
         else:
             v = self.value_text(t, o["base"], valid)
         if self.chance("p_quoted"):
